@@ -8,7 +8,7 @@ def _nontrivial(case, impl, kv):
 SPEC = dict(
     id="C08", level="proof",
     lean_targets=["SwayVerif.Props.C08"], audit="SwayVerif/Audit/C08.lean",
-    theorems=["liveness_is_solution", "liveness_sound", "interference_complete", "coalesce_keeps_interference",
+    theorems=["liveness_is_solution", "liveness_total", "liveness_sound", "interference_complete", "coalesce_keeps_interference",
               "coalesce_rename_no_clobber", "assign_proper", "assign_total_or_error", "spill_offsets_disjoint",
               "C08_no_clobber", "C08_no_clobber_pipeline", "validAlloc_sound", "C08_simulation",
               "C08_checked_simulation"],
@@ -39,6 +39,11 @@ SPEC = dict(
 )
 
 def run(tier, seed):
+    import os
+    # mutation tests run against a scratch copy of /repo: VERIF_HARNESS=<dir of a harness crate built against the copy>
+    h = os.environ.get("VERIF_HARNESS")
+    if h:
+        svlib.HARNESS = h
     return svlib.run_spec(SPEC, tier, seed)
 
 MANIFEST = dict(
